@@ -983,14 +983,17 @@ class K:
         return ('break', 'SBreak')
 
 
-def scenario(rng, world):
+SCENARIO_KINDS = ['shadow', 'shadow', 'shadow', 'unwind', 'unwind', 'nested_def', 'nested_def', 'loop_in_loop',
+                       'arg_alias', 'arg_alias', 'paramless_local', 'paramless_local', 'computed_sources', 'late_macro', 'self_bound',
+                       'single_item_range', 'none_param', 'later_param_shadows', 'raw_cycle']
+
+
+def scenario(rng, world, kind=None):
     """Directed scripts for situations the free generator reaches rarely: a parameter shadowing a global and
     holding a falsy value when it is assigned (in plain code, in a loop, in a conditional); a return out of
     loops nested in a light loop while the caller has values pending; a routine defined inside a branch that
     is not taken or a loop body; index variables of caller and callee loops."""
-    kind = rng.choice(['shadow', 'shadow', 'shadow', 'unwind', 'unwind', 'nested_def', 'nested_def', 'loop_in_loop',
-                       'arg_alias', 'arg_alias', 'paramless_local', 'paramless_local', 'computed_sources', 'late_macro', 'self_bound',
-                       'single_item_range'])
+    kind = kind or rng.choice(SCENARIO_KINDS)
     g = rng.choice(['a', 'x', 'n', 'level'])
     items = []
     if kind == 'shadow':
@@ -1058,6 +1061,51 @@ def scenario(rng, world):
         b = K.block(body)
         items.append(('repeat in %s as lx %s' % (' and '.join(t for t, _ in srcs), b[0]),
                       '(SRepeat (LIn %s "lx" None) %s)' % (coq_list([c for _, c in srcs]), b[1])))
+        items.append(K.pr(K.lit(999)))
+    elif kind == 'none_param':
+        # a parameter (or local) bound to the empty result of a bare `return` still hides the global of the same name
+        v0 = rng.choice([70, 500, 2.5])
+        bare = ('return', '(SReturn None)')
+        items.append(K.assign(g, K.lit(v0)))
+        items.append(K.define('lookup', ['k'], [K.pr(K.var('k')), bare]))
+        items.append(K.define('show', [g], [K.pr(K.var(g))]))
+        items.append(K.define('pass_on', [g], [K.call('show', [K.var(g)]), K.pr(K.var(g))]))
+        items.append(K.call('show', [K.r_call('lookup', [K.lit(50)])]))
+        items.append(K.call('show', [K.lit(8)]))
+        items.append(K.call('pass_on', [K.r_call('lookup', [K.lit(51)])]))
+        items.append(K.define('keep', ['q'], [K.assign('mine', K.lit(1)), K.assign('mine', K.r_call('lookup', [K.lit(99)])), K.pr(K.var('mine')), K.pr(K.var('q'))]))
+        items.append(K.call('keep', [K.lit(3)]))
+        items.append(K.pr(K.var(g)))
+    elif kind == 'later_param_shadows':
+        # a second or third parameter named like a global defined above the routine hides it like a first one does
+        g2 = rng.choice(['step', 'count2', 'b'])
+        items.append(K.assign(g, K.lit(7)))
+        items.append(K.assign(g2, K.lit(9)))
+        items.append(K.define('second', ['start', g], [K.pr(K.var('start')), K.pr(K.var(g)), K.assign(g, K.expr(*K.e_bin('+', K.e_var(g), K.e_lit(1)))), K.pr(K.var(g))]))
+        items.append(K.define('third', ['p', g2, g], [K.rep_count(K.lit(2), [K.if_(K.expr(*K.e_bin('<', K.e_var(g), K.e_lit(100))), [K.assign(g, K.expr(*K.e_bin('*', K.e_var(g), K.e_lit(10))))])]),
+                                                     K.pr(K.var(g)), K.pr(K.var(g2)), K.ret(K.var(g))]))
+        items.append(K.call('second', [K.lit(3), K.lit(50)]))
+        items.append(K.pr(K.r_call('third', [K.lit(1), K.lit(2), K.lit(3)])))
+        items.append(K.pr(K.var(g)))
+        items.append(K.pr(K.var(g2)))
+    elif kind == 'raw_cycle':
+        # `with v cycle` divides a full turn by the count: 65536 in raw units, 360 otherwise -- in plain code, with a start
+        # value, over lights, and in a routine that runs under the units of its caller
+        n = rng.choice([2, 3, 4, 8])
+        b1 = K.block([K.pr(K.var('h')), K.reg('hue', K.var('h'))])
+        cyc = lambda start: '(WCycle "h" %s)' % ('None' if start is None else '(Some (RLit (LInt %d)))' % start)
+        loop_a = ('repeat %d with h cycle %s' % (n, b1[0]), '(SRepeat (LCountWith (RLit (LInt %d)) %s) %s)' % (n, cyc(None), b1[1]))
+        loop_b = ('repeat 2 with h cycle 1000 %s' % b1[0], '(SRepeat (LCountWith (RLit (LInt 2)) %s) %s)' % (cyc(1000), b1[1]))
+        loop_c = ('repeat all as lx with h cycle %s' % b1[0], '(SRepeat (LAll "lx" (Some %s)) %s)' % (cyc(None), b1[1]))
+        items.append(K.define('turn', [], [loop_a, K.ret(K.lit(1))]))
+        items.append(('units raw', '(SUnits UM_RAW)'))
+        items.append(loop_a)
+        items.append(loop_b)
+        items.append(loop_c)
+        items.append(K.call('turn', []))
+        items.append(('units logical', '(SUnits UM_LOGICAL)'))
+        items.append(loop_a)
+        items.append(K.call('turn', []))
         items.append(K.pr(K.lit(999)))
     elif kind == 'single_item_range':
         # a light loop with an interpolated variable over exactly one item (increment 0, nothing divided): the item is
